@@ -408,9 +408,55 @@ def gen_fresh(seed, idx):
     return t, cfg
 
 
+def gen_zero(seed, idx):
+    """fresh construction without segmentation whose node ids include 0 (dividing root / middle of a linear track /
+    leaf / isolated, by idx % 4), together with large and non-contiguous ids"""
+    from funtracks.data_model import SolutionTracks
+
+    rng = random.Random(repr((seed, "zero", idx)))
+    role = ["dividing_root", "middle", "leaf", "isolated"][idx % 4]
+    ndim = rng.choice([3, 4])
+    nsp = ndim - 1
+    peraxis = rng.random() < 0.35
+    axes = ["z", "y", "x"][-nsp:]
+    pool = [1, 2, 7, 999, 1000003, 2 ** 31 + 5, 2 ** 40 + 1] + rng.sample(range(3, 500), 4)
+    rng.shuffle(pool)
+    a, b, c, e, f = pool[:5]
+    # (id, time) and edges per role; extra nodes: a second lineage with a skip edge and an isolated large id
+    if role == "dividing_root":
+        nt, es = [(0, 0), (a, 1), (b, 1), (c, 2)], [(0, a), (0, b), (a, c)]
+    elif role == "middle":
+        nt, es = [(a, 0), (0, 1), (b, 2), (c, 3)], [(a, 0), (0, b), (b, c)]
+    elif role == "leaf":
+        nt, es = [(a, 0), (b, 1), (0, 2)], [(a, b), (b, 0)]
+    else:
+        nt, es = [(0, 1), (a, 0), (b, 1)], [(a, b)]
+    nt += [(e, 0), (f, 3)]
+    es += [(e, f)] if rng.random() < 0.7 else []
+    rng.shuffle(nt)
+    g = nx.DiGraph()
+    for i, tm in nt:
+        p = [rng.randrange(0, 400) / 8.0 for _ in range(nsp)]
+        at = {"time": tm}
+        if peraxis:
+            at.update(dict(zip(axes, p)))
+        else:
+            at["pos"] = p
+        g.add_node(i, **at)
+    rng.shuffle(es)
+    g.add_edges_from(es)
+    kw = {"ndim": ndim, "scale": rng.choice([None, [1.0] * ndim])}
+    if peraxis:
+        kw["pos_attr"] = axes
+    t = SolutionTracks(g, **kw)
+    return t, {"kind": "zero", "role": role, "ndim": ndim, "per_axis": peraxis, "scale": kw["scale"], "ids": [i for i, _ in nt]}
+
+
 def make_tracks(seed, kind, idx):
     if kind == "fresh":
         return gen_fresh(seed, idx)
+    if kind == "zero":
+        return gen_zero(seed, idx)
     import editmachine as E
 
     r = E.run_scenario(seed, idx)
@@ -435,6 +481,12 @@ def tags_of(t):
         tg.add("noncontiguous_track_ids")
     if any(g.in_degree(n) > 1 for n in ns):
         tg.add("two_parents")
+    if 0 in g:
+        tg.add("node_id_0")
+        if g.out_degree(0) > 0:
+            tg.add("node_id_0_is_parent")
+    if any(n >= 2 ** 31 for n in ns):
+        tg.add("node_id_above_2^31")
     tg.add("3D" if t.ndim == 4 else "2D")
     tg.add("seg" if t.segmentation is not None else "noseg")
     tg.add("per_axis" if isinstance(t.features.position_key, list) else "single_key")
@@ -744,6 +796,7 @@ def evaluate(seed, kind, idx, stats, violations, samples, distinct, jobs_out, wa
 
 def run(ctx):
     n_edit, n_fresh, n_tid = (40, 16, 40) if ctx.quick() else (260, 100, 400)
+    n_zero = 8 if ctx.quick() else 40
     stats, violations, divergences, samples, jobs = {}, [], [], [], []
     distinct = set()
     evals = 0
@@ -751,6 +804,8 @@ def run(ctx):
         evals += evaluate(ctx.seed, "edit", i, stats, violations, samples, distinct, jobs)
     for i in range(n_fresh):
         evals += evaluate(ctx.seed, "fresh", i, stats, violations, samples, distinct, jobs)
+    for i in range(n_zero):
+        evals += evaluate(ctx.seed, "zero", i, stats, violations, samples, distinct, jobs)
     for label, line, impl in track_id_cases(ctx.rng, n_tid):
         jobs.append(({"kind": "track-id-case"}, label, line, impl))
         evals += 1
@@ -770,7 +825,7 @@ def run(ctx):
             divergences.append({"what": "%s: %s" % (label, err), "input": dict(ident, line=line[:1500]),
                                 "impl": "(see what)" if callable(want) else want[:1500], "model": mo[:1500]})
     return {"evaluations": evals, "distinct_nontrivial": len(distinct),
-            "rule": "tracks objects from (i) editing sessions E.run_scenario(seed, i): random forest over 1-8 ids from 1..39, 2D/3D, with (5x5 / 3x3x3 masks) or without segmentation, single-key or per-axis positions, scale None/ones/anisotropic, optional iou / ellipse / perimeter / circularity features and custom attributes, then 4-22 random user actions (add/delete node/edge, swap, attribute updates, painting, undo, redo); (ii) fresh construction: 2-9 ids from 1..199, 3-6 frames, forests with divisions and skip edges and isolated nodes, dyadic (70%) or non-dyadic positions, box or C-shaped masks with several integer dtypes, time key 'time' or 't', track/lineage ids either computed or supplied as arbitrary distinct values (60%), registered custom features (int c1, float score) and an unregistered partial attribute c2. Every object is written and re-read in CSV, GEFF and the internal format (evaluation = one object x one format) and the model is run on the same data (X/I/S/C/G/F/T lines); plus direct activate-vs-recompute cases (K). Non-trivial = at least 2 nodes and 1 edge; distinct = distinct (format, nodes, edges, times, positions, track ids).",
+            "rule": "tracks objects from (i) editing sessions E.run_scenario(seed, i): random forest over 1-8 ids from 1..39, 2D/3D, with (5x5 / 3x3x3 masks) or without segmentation, single-key or per-axis positions, scale None/ones/anisotropic, optional iou / ellipse / perimeter / circularity features and custom attributes, then 4-22 random user actions (add/delete node/edge, swap, attribute updates, painting, undo, redo); (ii) fresh construction: 2-9 ids from 1..199, 3-6 frames, forests with divisions and skip edges and isolated nodes, dyadic (70%) or non-dyadic positions, box or C-shaped masks with several integer dtypes, time key 'time' or 't', track/lineage ids either computed or supplied as arbitrary distinct values (60%), registered custom features (int c1, float score) and an unregistered partial attribute c2; (iii) id-0 construction without segmentation: node id 0 as a dividing root / in the middle of a linear track / as a leaf / isolated (cycled), other ids drawn from {1, 2, 7, 999, 1000003, 2^31+5, 2^40+1} and 3..499, a second lineage with a skip edge, single-key or per-axis positions, 2D/3D. Every object is written and re-read in CSV, GEFF and the internal format (evaluation = one object x one format) and the model is run on the same data (X/I/S/C/G/F/T lines); plus direct activate-vs-recompute cases (K). Non-trivial = at least 2 nodes and 1 edge; distinct = distinct (format, nodes, edges, times, positions, track ids).",
             "samples": samples, "divergences": divergences, "violations": violations, "stats": stats}
 
 
